@@ -14,7 +14,8 @@ EXPLANATION = (
     "(R11.4) iterative_solve tests the residual of the iterate it returns, returns only under res/res0 < tol or at maxiter (then "
     "reporting inf), and solve_hmultigrid forwards every documented option; (R11.5) array-valued optional arguments are tested "
     "with 'is None', never by truth value; (R11.6) every update of the iterate in the V-cycle is a smoother call on that level or "
-    "an explicit residual correction, coarse operators are P^T A P; (R11.7) no documented parameter of a public solver is ignored.")
+    "an explicit residual correction, coarse operators are P^T A P; (R11.7) no documented parameter of a public solver is ignored.  "
+    "R11.4 also requires the reference residual res0 to be computed after the starting vector x0 has been incorporated.")
 DOES_NOT_DECIDE = "contraction, monotonicity of the energy norm, convergence rates"
 TECHNIQUE = "custom AST rules on Python + lowered Cython: sibling kernel comparison, guard dominance, name-table agreement, parameter def-use"
 
